@@ -134,6 +134,18 @@ func expectAfterAdd(s *session, arg, ret string) {
 		return // an alias of something already listed under another name: the first spelling stays
 	}
 	expectListed[p] = expectation{ino: ino}
+	// file-system steps whose notifications the reader has not handled yet (the session pumps only every
+	// `lag` steps) may still end this watch — a hard link of the file renamed before this re-Add raises
+	// IN_MOVE_SELF on the same wd (finding F9) — so they invalidate the new expectation as well
+	for _, pf := range pendingFS {
+		expectAfterFS(pf.desc, pf.touched)
+	}
+}
+
+// file-system steps since the last quiescent point
+var pendingFS []struct {
+	desc    string
+	touched map[uint64]bool
 }
 
 // invalidate every expectation a file-system step may have affected (conservative: by name)
@@ -374,6 +386,7 @@ func runLive(r *rec, g *rng, tier, what, replay, out string, extra map[string]in
 			mon.Write(append(b, '\n'))
 		}
 		expectListed = map[string]expectation{}
+		pendingFS = nil
 		hangCtx.Store("session", si)
 		hangCtx.Store("seed", base)
 		hangCtx.Store("tier", tier)
@@ -443,10 +456,15 @@ func runLive(r *rec, g *rng, tier, what, replay, out string, extra map[string]in
 				d := fs.fsStep(sg)
 				fslog = append(fslog, d)
 				expectAfterFS(d, fs.touched)
+				pendingFS = append(pendingFS, struct {
+					desc    string
+					touched map[uint64]bool
+				}{d, fs.touched})
 				r.notes["fs:"+strings.SplitN(d, " ", 2)[0]]++
 			}
 			if i%lag == 0 {
 				alive = s.pump(r)
+				pendingFS = nil
 				if alive {
 					s.quiescent(fmt.Sprintf("step %d", i))
 					s.checkExpectations(fmt.Sprintf("step %d", i))
